@@ -282,3 +282,25 @@ Proof.
   rewrite energy_add_offset. rewrite <- (lin_energy_merge terms s).
   rewrite penalty_expand. ring.
 Qed.
+
+(* ---------- penalization_method='unbalanced' ---------- *)
+
+Lemma energy_fold_add_linear lam0 terms : forall p s,
+  energy (fold_left (fun acc t => add_linear (fst t) (lam0 * snd t) acc) terms p) s
+  = energy p s + lam0 * lin_energy terms s.
+Proof.
+  induction terms as [|t r IH]; intros p s; cbn [fold_left].
+  - rewrite lin_energy_nil. ring.
+  - rewrite IH, energy_add_linear, lin_energy_cons. ring.
+Qed.
+
+Theorem add_unbalanced_exact py vt terms lam0 lam1 ubc p s :
+  bqm_vt vt -> respects (cvt vt) s ->
+  energy (add_unbalanced py vt terms lam0 lam1 ubc p) s
+  = energy p s + lam0 * lin_sum terms s - ubc
+    + lam1 * ((lin_sum terms s - ubc) * (lin_sum terms s - ubc)).
+Proof.
+  intros Hvt Hr. unfold add_unbalanced.
+  destruct py; [rewrite add_eq_py_exact by assumption|rewrite add_eq_cy_exact by assumption];
+    rewrite energy_add_offset, energy_fold_add_linear; unfold lin_sum; ring.
+Qed.
